@@ -61,7 +61,7 @@ def main(tier, seed, replay):
     st = {"lines": 0, "monitors": 0, "monitor_failures": 0, "diffs": 0, "ops": {}, "results": {}, "known_finding_hits": 0}
     work, mlines, hstats, ncross = [], [], {}, 0
     if hexe and mexe:
-        n = 100 if tier == "quick" else 700
+        n = 120 if tier == "quick" else 600
         lines = []
         if replay_text is not None:
             # self-contained monitor lines (mon_strict, mon_strict_direct) are re-evaluated against the
